@@ -101,7 +101,7 @@ MANUAL = [
     ("C03", "bn_training_mode_unused_stats", r"(violation_values|violation_not_executable):.*",
      "BatchNormalization<training_mode=1> whose running-statistics outputs are dead: onnx_ir RemoveUnusedNodesPass (part of optimize/rewrite) drops training_mode, switching to inference statistics"),
     ("C04", "reduces_to_known_rule_finding", r"(invalid|override|raise|signature):.*", "see C03: inherited rewrite-rule findings (validity / override / exceptions)"),
-    ("C04", "value_name_defined_in_several_scopes", r"raise:.*:ValueError@_core\.py:(register_initializer|name)", "a value name defined in two disjoint scopes (legal ONNX): after a constant-condition If is inlined, the folder registers a folded initializer under a name that the graph already holds and raises ValueError"),
+    ("C04", "cse_drops_output_type", r"(invalid:checker|signature:outputs-elemtype):optimize.*", "onnx_ir CommonSubexpressionEliminationPass (last stage of optimize_ir) merges a typed graph output with an untyped duplicate (Identity of the same input, left over from an inlined If) and keeps the untyped value: the output loses its type, the model is invalid"),
     ("C04", "bn_training_mode_unused_stats", r"(invalid|override):.*", "see C03: training-mode BatchNormalization after dead-output removal is invalid (3 outputs without training_mode)"),
     ("C09", "reduces_to_known_rule_finding", r"(violation_values|violation_not_executable):.*", "see C03: inherited rewrite-rule findings under symbolic shapes"),
     ("C09", "bn_training_mode_unused_stats", r"(violation_values|violation_not_executable):.*", "see C03"),
